@@ -395,6 +395,8 @@ pub struct FontInfo {
     pub hmtx_flags: u8,
     pub n: usize,
     pub nhm: usize,
+    /// head.indexToLocFormat of the source font
+    pub src_loca_long: bool,
     /// glyph records of the source (only when the glyf table could be read)
     pub recs: Vec<GlyphRec>,
     pub per: Vec<GlyphStreams>,
@@ -438,6 +440,7 @@ fn prepare(src: &SrcFont, ch: &Choices, rng: &mut StdRng) -> Prepared {
             let long = be16(head, 50).ok_or("short head")? != 0;
             let n = be16(maxp, 4).ok_or("short maxp")? as usize;
             info.n = n;
+            info.src_loca_long = long;
             let glyf = src.get("glyf").unwrap();
             let loca = src.get("loca").unwrap();
             let rd = glyph::read_glyf(glyf, loca, long, n)?;
